@@ -9,7 +9,7 @@ FUNCTIONS = [
     "batchie.common.select_unique_zipped_numpy_arrays",
 ]
 BOUNDS = {
-    "quick": "screens of 4 rows (3 structures with duplicate conditions, single-agent rows, 1-3 plates); every boolean selection (all 2^4), every nested selection of it, every second parent-level selection; unique filter on 3 rows x 2 symbolic integer columns",
+    "quick": "screens of 4 rows (3 structures with duplicate conditions, single-agent rows, 1-3 plates); every boolean selection (all 2^4), every nested selection of it, every second parent-level selection; observed/unobserved split after set_observed on every row selection and after every Plate.merge; unique filter on 3 rows x 2 symbolic integer columns",
     "thorough": "screens of 5 and 6 rows; unique filter on 4 rows x 3 symbolic integer columns",
 }
 ASSUMPTIONS = [
@@ -39,6 +39,7 @@ def configs(tier, seed):
         for st in ("A", "B", "C"):
             out.append(dict(name="views %s R=%d" % (st, R), h="views", st=st, R=R))
             out.append(dict(name="plates %s R=%d" % (st, R), h="plates", st=st, R=R))
+            out.append(dict(name="split after set_observed / merge %s R=%d" % (st, R), h="split", st=st, R=R))
     out.append(dict(name="unique-kernel", h="uniq", n=3 if tier == "quick" else 4, cols=2 if tier == "quick" else 3))
     return out
 
@@ -54,6 +55,8 @@ def fixtures(cfg):
             v["sel%d" % i] = bool(bits >> i & 1)
             v["sub%d" % i] = bool((bits * 5) >> i & 1)
             v["oth%d" % i] = bool((bits * 3 + 1) >> i & 1)
+            v["nv%d" % i] = 0.91 - 0.1 * i
+        v.update(ma=bits % 2, mb=(bits + 1) % 2)
         out.append(v)
     return out
 
@@ -235,6 +238,50 @@ def h_plates(ctx, cfg):
     return len(plates)
 
 
+def h_split(ctx, cfg):
+    """the observed / unobserved views split the screen by its mask *as it is now*: after set_observed on an arbitrary
+    selection of rows (part of a plate included) and after merging an observed plate into an unobserved one"""
+    np = ctx.np
+    data = ctx.mod("batchie.data")
+    R = cfg["R"]
+    screen, rows, obs, mask = _screen(ctx, data, cfg["st"], R)
+    sel = _bits(ctx, "sel", R)
+    k = sum(1 for b in sel if b)
+    new = [ctx.real("nv%d" % i) for i in range(k)]
+    screen.set_observed(np.array(sel, dtype=bool), np.array(new, dtype=float))
+    now = [mask[i] or sel[i] for i in range(R)]
+    ctx.prove(screen.observation_mask.tolist() == now, "set_observed marks the selected rows observed")
+
+    def split(label, now):
+        ob, un = screen.subset_observed(), screen.subset_unobserved()
+        oi = [i for i in range(R) if now[i]]
+        ui = [i for i in range(R) if not now[i]]
+        if oi:
+            _check_view(ctx, ob, screen, oi, "subset_observed " + label)
+        else:
+            ctx.prove(ob is None, "subset_observed is None when nothing is observed " + label)
+        if ui:
+            _check_view(ctx, un, screen, ui, "subset_unobserved " + label)
+        else:
+            ctx.prove(un is None, "subset_unobserved is None when everything is observed " + label)
+        if oi and ui:
+            so, su = ob.selection_vector.tolist(), un.selection_vector.tolist()
+            ctx.prove(all(so[i] != su[i] for i in range(R)), "observed and unobserved views partition the screen " + label,
+                      key="observed / unobserved views do not partition the screen")
+    split("after set_observed", now)
+    plates = screen.plates
+    if len(plates) >= 2:
+        a = int(ctx.int("ma", 0, len(plates) - 1))
+        b = int(ctx.int("mb", 0, len(plates) - 1))
+        if a != b:
+            before_rows = [i for i in range(R) if plates[a].selection_vector.tolist()[i] or plates[b].selection_vector.tolist()[i]]
+            merged = plates[a].merge(plates[b])
+            ctx.prove([i for i in range(R) if merged.selection_vector.tolist()[i]] == before_rows, "merged plate holds the rows of both plates")
+            ctx.prove(screen.observation_mask.tolist() == now, "merging plates does not change any row's observation status")
+            split("after Plate.merge", now)
+    return k
+
+
 def h_uniq(ctx, cfg):
     """select_unique_zipped_numpy_arrays on directly symbolic integer columns"""
     np = ctx.np
@@ -261,4 +308,4 @@ def h_uniq(ctx, cfg):
 
 
 def run(ctx, cfg):
-    return {"views": h_views, "plates": h_plates, "uniq": h_uniq}[cfg["h"]](ctx, cfg)
+    return {"views": h_views, "plates": h_plates, "split": h_split, "uniq": h_uniq}[cfg["h"]](ctx, cfg)
